@@ -16,6 +16,11 @@
 //! lifetime > exp) and with the real `IdentityRegistry` (stored expiry instant via `verif_snapshot`:
 //! `C10:lifetime:registry-expiry-exceeds-remaining`); both are bracketed by the model's `lifetime` at the clock
 //! values before and after the call.
+//! Stream `replay-over-time` (section "replay-over-time" below): ONE long-lived verifier per construction (static key /
+//! static key + JWKS store) and the running router's own verifier are shown byte-identical token strings again and
+//! again while the real clock passes exp + leeway / nbf - leeway; every presentation is judged by the same conjuncts at
+//! the second it happened in and compared with a verifier constructed for that presentation (`C10:over-time:*`).  The
+//! waiting (about 8 s) is shared with the other streams' work.
 use std::{
     str::FromStr,
     sync::Arc,
@@ -190,7 +195,20 @@ struct Env {
     rt: tokio::runtime::Runtime,
     ver_static: SnapTokenVerifier,
     ver_jwks: Option<SnapTokenVerifier>,
+    /// what the verifiers are constructed from (further instances: the long-lived ones of the over-time stream and
+    /// the fresh ones they are compared with)
+    static_dk: DecodingKey,
+    store: Option<Arc<JwksKeyStore>>,
     leeway: u64,
+}
+
+/// a verifier instance that has never seen a token: static key only, or static key + the (shared) JWKS store
+fn new_verifier(env: &Env, jwks: bool) -> SnapTokenVerifier {
+    let v = SnapTokenVerifier::new(env.static_dk.clone());
+    match (&env.store, jwks) {
+        (Some(s), true) => v.with_jwks_store(s.clone()),
+        _ => v,
+    }
 }
 
 fn render(c: &Case, env: &Env, now: u64) -> String {
@@ -1585,6 +1603,451 @@ fn run_e2e(c: &Case, shape: Option<usize>, env: &Env, e: &E2e, lean: &mut Lean, 
     }
 }
 
+// ------------------------------------------------------------------------------------------------
+// replay-over-time: ONE long-lived verifier instance per construction, byte-identical token strings presented again
+// and again while the real clock passes the end (exp + leeway) / the beginning (nbf - leeway) of their window
+// ------------------------------------------------------------------------------------------------
+//
+// The property says a token is accepted "if and only if ... inside its validity window - not before its not-before
+// time, not after its expiry, up to the verifier's fixed clock leeway": the verdict is a function of the string and of
+// the clock at the moment of presentation, of nothing else - in particular not of what the same verifier instance
+// answered before.  The oracle below is that sentence, evaluated with the clock second read around every single
+// presentation (`spec_violations`, the same conjuncts as everywhere else): accepted => every conjunct holds at that
+// second; every conjunct holds => accepted; and the long-lived instance answers exactly as an instance constructed
+// for this one presentation.  A presentation during which the second ticked is not judged.
+
+#[derive(Clone, Debug, Serialize, Deserialize, PartialEq)]
+enum OtWindow {
+    /// exp = t - leeway + d: inside its window up to second t + d, outside from t + d + 1 on
+    Expiring(i64),
+    /// nbf = t + leeway + d, exp = t + 3600: outside before second t + d, inside from then on
+    Maturing(i64),
+    /// nbf = t + leeway + a, exp = t - leeway + b: inside exactly during the seconds t + a ..= t + b
+    Both(i64, i64),
+    /// exp = t + 3600: accepted at every presentation
+    Live,
+    /// exp = t - leeway - 2: refused at every presentation
+    Dead,
+    /// nbf = t + leeway + 3600: refused at every presentation
+    Unborn,
+}
+
+/// replayable description of one token of the stream (t = the second the stream starts in)
+#[derive(Clone, Debug, Serialize, Deserialize)]
+struct OtSpec {
+    /// "verifier" (SnapTokenVerifier::verify in-process) | "router" (HTTP request to the real control-plane router)
+    target: String,
+    /// name of the base token (`bases`)
+    base: String,
+    window: OtWindow,
+}
+
+#[derive(Serialize, Deserialize)]
+struct OtLine {
+    over_time: OtSpec,
+}
+
+/// the base token with absolute times (so that the recipe renders to the same string whenever it is rendered)
+fn ot_case(b: &Base, w: &OtWindow, t: u64, l: i64) -> Case {
+    let abs = |o: i64| raw(&format!("{}", t as i64 + o));
+    let mut pay: Vec<(String, V)> = b
+        .pay
+        .iter()
+        .map(|(k, v)| {
+            let v2 = match v {
+                // nbf / iat of the base lie an hour back, so that only the member the window names is near the clock
+                V::T(o) if k == "nbf" || k == "iat" => abs(*o - 3600),
+                V::T(o) => abs(*o),
+                V::TF(o, s) => raw(&format!("{}{}", t as i64 + o, s)),
+                r => r.clone(),
+            };
+            (k.clone(), v2)
+        })
+        .collect();
+    match w {
+        OtWindow::Expiring(d) => pay = set(&pay, "exp", abs(-l + d)),
+        OtWindow::Maturing(d) => pay = set(&pay, "nbf", abs(l + d)),
+        OtWindow::Both(a, z) => pay = set(&set(&pay, "nbf", abs(l + a)), "exp", abs(-l + z)),
+        OtWindow::Live => {}
+        OtWindow::Dead => pay = set(&pay, "exp", abs(-l - 2)),
+        OtWindow::Unborn => pay = set(&pay, "nbf", abs(l + 3600)),
+    }
+    let mut c = b.case(&format!("over-time {w:?} at {t}"));
+    c.pay = Pay::Obj(pay);
+    c
+}
+
+struct OtTok {
+    spec: OtSpec,
+    case: Case,
+    token: String,
+    parsed: Option<Parsed>,
+    jwks: bool,
+}
+
+/// everything one instance was shown of one string: (second, verdict) of every judged presentation, in order.
+/// Keyed by instance and STRING, not by recipe: the fresh control tokens of successive rounds coincide as strings
+/// (`exp = t - leeway` made at second t is `exp = t' - leeway - 1` made at t' = t + 1), which makes them replays
+/// across a one-second boundary.
+#[derive(Default)]
+struct OtHist {
+    hist: Vec<(u64, String)>,
+    reported: std::collections::HashSet<String>,
+}
+
+impl OtTok {
+    fn claim(&self, k: &str) -> Option<u64> {
+        match &self.parsed.as_ref()?.pay {
+            PPay::Obj(ms) => match last(ms, k) {
+                Some(JV::U(n)) => Some(*n),
+                _ => None,
+            },
+            _ => None,
+        }
+    }
+}
+
+impl OtHist {
+    fn seen(&self, accepted: bool) -> Option<&(u64, String)> {
+        self.hist.iter().find(|(_, v)| ot_accepted(v) == accepted)
+    }
+    /// the history with runs of equal verdicts collapsed to their first and last second
+    fn hist_json(&self) -> Value {
+        let mut runs: Vec<(u64, u64, String, u64)> = vec![];
+        for (t, v) in &self.hist {
+            match runs.last_mut() {
+                Some(r) if r.2 == *v => {
+                    r.1 = *t;
+                    r.3 += 1;
+                }
+                _ => runs.push((*t, *t, v.clone(), 1)),
+            }
+        }
+        Value::Array(runs.iter().map(|(a, z, v, n)| json!({"from_second": a, "to_second": z, "presentations": n, "verdict": v})).collect())
+    }
+}
+
+fn ot_accepted(verdict: &str) -> bool {
+    verdict.starts_with("ok") || (verdict.starts_with("http ") && verdict != "http 401" && verdict != "http 0")
+}
+
+struct OverTime {
+    /// the second the stream's tokens were made in
+    t_a: u64,
+    /// first second at which every expiring / maturing token of the stream is on the far side of its boundary
+    t_last: u64,
+    toks: Vec<OtTok>,
+    /// instance + string -> what that instance was shown of that string
+    hists: std::collections::HashMap<String, OtHist>,
+    bases: Vec<Base>,
+    ver_static: SnapTokenVerifier,
+    ver_jwks: Option<SnapTokenVerifier>,
+    last_round: Instant,
+    rounds: u64,
+    presentations: u64,
+    unjudged: u64,
+    controls: u64,
+    done: bool,
+}
+
+impl OverTime {
+    fn new(seed: u64, env: &Env, router: Option<(&Env, &E2e)>, thorough: bool, only: Option<Vec<OtSpec>>) -> OverTime {
+        let l = env.leeway as i64;
+        let mut rng = Rng::new(seed ^ 0x07_11E);
+        let bs = bases(&mut rng, env.store.is_some());
+        let rbs: Vec<Base> = bases(&mut rng, false).into_iter().take(2).collect();
+        let specs: Vec<OtSpec> = match only {
+            Some(s) => s,
+            None => {
+                let dmax: i64 = if thorough { 12 } else { 6 };
+                let mut ws = vec![OtWindow::Live, OtWindow::Dead, OtWindow::Unborn, OtWindow::Both(2, dmax - 1)];
+                for d in 3..=dmax {
+                    ws.push(OtWindow::Expiring(d));
+                    ws.push(OtWindow::Maturing(d));
+                }
+                let mut v = vec![];
+                for b in &bs {
+                    for w in &ws {
+                        v.push(OtSpec { target: "verifier".into(), base: b.name.into(), window: w.clone() });
+                    }
+                }
+                if router.is_some() {
+                    for b in &rbs {
+                        for w in &ws {
+                            v.push(OtSpec { target: "router".into(), base: b.name.into(), window: w.clone() });
+                        }
+                    }
+                }
+                v
+            }
+        };
+        let t_a = now_secs();
+        let mut t_last = t_a + 1;
+        let mut toks = vec![];
+        for spec in specs {
+            let (pool, e): (&Vec<Base>, &Env) = if spec.target == "router" {
+                match router {
+                    Some((e2, _)) => (&rbs, e2),
+                    None => continue,
+                }
+            } else {
+                (&bs, env)
+            };
+            let Some(b) = pool.iter().find(|b| b.name == spec.base) else { continue };
+            let case = ot_case(b, &spec.window, t_a, l);
+            let token = render(&case, e, t_a);
+            let parsed = parse_token(&token, e);
+            let far = match spec.window {
+                OtWindow::Expiring(d) => d + 1,
+                OtWindow::Maturing(d) => d,
+                OtWindow::Both(_, z) => z + 1,
+                _ => 0,
+            };
+            t_last = t_last.max((t_a as i64 + far) as u64);
+            toks.push(OtTok { jwks: b.jwks && env.store.is_some(), spec, case, token, parsed });
+        }
+        OverTime {
+            t_a,
+            t_last,
+            toks,
+            hists: Default::default(),
+            bases: bs,
+            ver_static: new_verifier(env, false),
+            ver_jwks: env.store.as_ref().map(|_| new_verifier(env, true)),
+            last_round: Instant::now() - Duration::from_secs(1),
+            rounds: 0,
+            presentations: 0,
+            unjudged: 0,
+            controls: 0,
+            done: false,
+        }
+    }
+
+    /// called between the cases of the other streams: the waiting is shared with their work
+    fn tick(&mut self, env: &Env, router: Option<(&Env, &E2e)>, lean: &mut Lean, rep: &mut Report) {
+        if !self.done && self.last_round.elapsed() >= Duration::from_millis(250) {
+            self.round(env, router, lean, rep);
+        }
+    }
+
+    /// keep presenting until every boundary has been passed, then once more
+    fn finish(&mut self, env: &Env, router: Option<(&Env, &E2e)>, lean: &mut Lean, rep: &mut Report) {
+        while !self.done {
+            let since = self.last_round.elapsed();
+            if since < Duration::from_millis(250) {
+                std::thread::sleep(Duration::from_millis(250) - since);
+            }
+            self.round(env, router, lean, rep);
+        }
+    }
+
+    fn round(&mut self, env: &Env, router: Option<(&Env, &E2e)>, lean: &mut Lean, rep: &mut Report) {
+        let started = now_secs();
+        self.last_round = Instant::now();
+        self.rounds += 1;
+        for i in 0..self.toks.len() {
+            self.present(i, env, router, lean, rep);
+        }
+        // fresh control tokens made in this round, on the same long-lived instances: on the last accepted and the first
+        // refused second of either end of the window
+        let l = env.leeway as i64;
+        let mut fresh = vec![];
+        for b in &self.bases {
+            for w in [OtWindow::Expiring(0), OtWindow::Expiring(-1), OtWindow::Maturing(0), OtWindow::Maturing(1)] {
+                let t = now_secs();
+                let case = ot_case(b, &w, t, l);
+                let token = render(&case, env, t);
+                let parsed = parse_token(&token, env);
+                fresh.push(OtTok {
+                    jwks: b.jwks && env.store.is_some(),
+                    spec: OtSpec { target: "verifier".into(), base: b.name.into(), window: w },
+                    case,
+                    token,
+                    parsed,
+                });
+            }
+        }
+        let n_fixed = self.toks.len();
+        self.toks.extend(fresh);
+        for i in n_fixed..self.toks.len() {
+            self.present(i, env, router, lean, rep);
+            self.controls += 1;
+        }
+        self.toks.truncate(n_fixed);
+        if started > self.t_last {
+            self.done = true;
+        }
+    }
+
+    fn present(&mut self, i: usize, env: &Env, router: Option<(&Env, &E2e)>, lean: &mut Lean, rep: &mut Report) {
+        let is_router = self.toks[i].spec.target == "router";
+        let jwks = self.toks[i].jwks;
+        let token = self.toks[i].token.clone();
+        self.presentations += 1;
+        // ---- the presentation: long-lived instance, then an instance made for this presentation ----------------
+        let (t0, t1, t2, verdict, fresh, panicked): (u64, u64, u64, String, Option<String>, Option<String>);
+        if is_router {
+            let Some((env2, e)) = router else { return };
+            t0 = now_secs();
+            let (status, _body) = e2e_register(env2, e, Some(&format!(" Bearer {token}")));
+            t1 = now_secs();
+            t2 = t1;
+            verdict = format!("http {status}");
+            fresh = None;
+            panicked = None;
+        } else {
+            let ver = if jwks { self.ver_jwks.as_ref().unwrap_or(&self.ver_static) } else { &self.ver_static };
+            t0 = now_secs();
+            let r = catch(|| env.rt.block_on(ver.verify(&token)));
+            t1 = now_secs();
+            let fv = new_verifier(env, jwks);
+            let rf = catch(|| env.rt.block_on(fv.verify(&token)));
+            t2 = now_secs();
+            verdict = impl_label(&r);
+            fresh = Some(impl_label(&rf));
+            panicked = r.err();
+        }
+        if t0 != t1 {
+            self.unjudged += 1;
+            return;
+        }
+        let now = t0;
+        let leeway = env.leeway;
+        let accepted = ot_accepted(&verdict);
+        let viol = spec_violations(&self.toks[i].parsed, jwks, now, leeway);
+        let model = match &self.toks[i].parsed {
+            None => "err header".to_string(),
+            Some(p) => lean.ask(&model_request(p, jwks, now)),
+        };
+        let t_a = self.t_a;
+        let tok = &self.toks[i];
+        let h = self.hists.entry(Self::hist_key(tok)).or_default();
+        let first_ok = h.seen(true).cloned();
+        let first_err = h.seen(false).cloned();
+        h.hist.push((now, verdict.clone()));
+        let who = if is_router { "router" } else { "verifier" };
+        let inst = if is_router {
+            "the running control-plane router (AuthMiddleware, one SnapTokenVerifier for the life of the process)".to_string()
+        } else {
+            format!("one long-lived SnapTokenVerifier ({})", if jwks { "static key + JWKS store" } else { "static key" })
+        };
+        let (exp, nbf) = (tok.claim("exp"), tok.claim("nbf"));
+        let mut fails: Vec<(String, String)> = vec![];
+        if let Some(p) = panicked {
+            fails.push((format!("C10:over-time:{who}:panic"), format!("verify panicked at second {now}: {p}")));
+        }
+        if accepted {
+            if let Some((k, what)) = viol.first() {
+                if *k == "expiry" {
+                    let e = exp.unwrap_or(0);
+                    let earlier = match &first_ok {
+                        Some((t, v)) => format!("the same instance first accepted it at second {t} ({v})"),
+                        None => "no earlier judged presentation of this string to this instance had that outcome".to_string(),
+                    };
+                    fails.push((
+                        format!("C10:over-time:{who}:accepted-after-expiry"),
+                        format!(
+                            "token with exp = {e} (leeway {leeway}: to be refused from second {} on) was accepted ({verdict}) at second {now}, {} s after exp + leeway, by {inst}; {earlier}; the string is byte-identical at every presentation ({what}){}",
+                            e + leeway + 1,
+                            now.saturating_sub(e + leeway),
+                            match &fresh { Some(f) if t0 == t2 => format!("; a verifier constructed for this presentation answers: {f}"), _ => String::new() }
+                        ),
+                    ));
+                } else {
+                    fails.push((format!("C10:over-time:{who}:accepted:{k}"), format!("{inst} accepted ({verdict}) at second {now} although {what}")));
+                }
+            }
+        } else if viol.is_empty() && verdict != "panic" {
+            let key = if first_err.is_some() && nbf.map(|n| n > t_a + leeway).unwrap_or(false) { "still-refused-after-not-before" } else { "rejected-valid" };
+            let earlier = match &first_err {
+                Some((t, v)) => format!("it was first refused by this instance at second {t} ({v})"),
+                None => "no earlier judged presentation of this string to this instance had that outcome".to_string(),
+            };
+            fails.push((
+                format!("C10:over-time:{who}:{key}"),
+                format!(
+                    "{inst} refused ({verdict}) at second {now} a token that satisfies every conjunct of the property at that second (nbf = {nbf:?}, exp = {exp:?}, leeway {leeway}); {earlier}{}",
+                    match &fresh { Some(f) if t0 == t2 => format!("; a verifier constructed for this presentation answers: {f}"), _ => String::new() }
+                ),
+            ));
+        }
+        if let Some(f) = &fresh {
+            if t0 == t2 && *f != verdict {
+                fails.push((
+                    format!("C10:over-time:{who}:differs-from-fresh-verifier"),
+                    format!("at second {now} {inst} answers {verdict}, a verifier constructed for this presentation answers {f}: the verdict depends on what the instance was shown before (first presented at second {})", h.hist[0].0),
+                ));
+            }
+        }
+        let case_json = |tok: &OtTok, h: &OtHist| {
+            json!({
+                "stream": "replay-over-time", "target": tok.spec.target, "kind": tok.case.kind, "recipe": serde_json::to_value(&tok.case).unwrap(),
+                "token": tok.token, "exp": exp, "nbf": nbf, "leeway": leeway,
+                "first_presented_at_second": h.hist[0].0, "first_verdict": h.hist[0].1,
+                "presented_again_at_second": now, "verdict": verdict, "fresh_verifier_verdict": fresh,
+                "presentations": h.hist_json(),
+                "line": serde_json::to_string(&OtLine { over_time: tok.spec.clone() }).unwrap(),
+            })
+        };
+        for (key, what) in fails {
+            if h.reported.insert(key.clone()) {
+                rep.spec_fail(&key, &what, case_json(tok, h));
+            }
+        }
+        // correspondence: the model is a function of (token, now)
+        let imp_for_model = if is_router { if accepted { "ok".to_string() } else { "err".to_string() } } else { verdict.clone() };
+        let model_cmp = if is_router { model.split(' ').next().unwrap_or("").to_string() } else { model.clone() };
+        if lean.differs(&model_cmp, &imp_for_model) && h.reported.insert("DISAGREE".into()) {
+            rep.disagree("verify-over-time", case_json(tok, h), &verdict, &model);
+        }
+    }
+
+    fn hist_key(t: &OtTok) -> String {
+        format!("{}/{}/{}", t.spec.target, t.jwks, t.token)
+    }
+
+    fn summary(&self, rep: &mut Report) {
+        let empty = OtHist::default();
+        let (mut exp_both, mut exp_n, mut mat_both, mut mat_n, mut both3) = (0u64, 0u64, 0u64, 0u64, 0u64);
+        for t in &self.toks {
+            let canon = format!("over-time {}", serde_json::to_string(&t.spec).unwrap());
+            rep.case(&canon, t.parsed.is_some());
+            rep.traces += 1;
+            rep.hit(&format!("base over-time {} {}", t.spec.target, t.spec.base));
+            let h = self.hists.get(&Self::hist_key(t)).unwrap_or(&empty);
+            let ok_then_err = h.hist.iter().position(|(_, v)| ot_accepted(v)).map(|p| h.hist[p..].iter().any(|(_, v)| !ot_accepted(v))).unwrap_or(false);
+            let err_then_ok = h.hist.iter().position(|(_, v)| !ot_accepted(v)).map(|p| h.hist[p..].iter().any(|(_, v)| ot_accepted(v))).unwrap_or(false);
+            match t.spec.window {
+                OtWindow::Expiring(_) => {
+                    exp_n += 1;
+                    exp_both += ok_then_err as u64;
+                }
+                OtWindow::Maturing(_) => {
+                    mat_n += 1;
+                    mat_both += err_then_ok as u64;
+                }
+                OtWindow::Both(..) => both3 += (ok_then_err && err_then_ok) as u64,
+                _ => {}
+            }
+        }
+        rep.hit_n("over-time: rounds on the long-lived instances", self.rounds);
+        rep.hit_n("over-time: presentations (long-lived instance + fresh instance each)", self.presentations);
+        rep.hit_n("over-time: presentations not judged (the second ticked during the call)", self.unjudged);
+        rep.hit_n("over-time: fresh control tokens (last accepted / first refused second of either window end)", self.controls);
+        rep.hit_n("over-time: expiring tokens observed accepted, then refused, by the same instance", exp_both);
+        rep.hit_n("over-time: maturing tokens observed refused, then accepted, by the same instance", mat_both);
+        rep.hit_n("over-time: tokens observed refused, accepted, refused by the same instance", both3);
+        if exp_both < exp_n || mat_both < mat_n {
+            rep.notes.push(format!(
+                "replay-over-time: only {exp_both} of {exp_n} expiring and {mat_both} of {mat_n} maturing tokens were observed on both sides of their boundary (stalled machine, or the verdicts are wrong - see the spec failures)"
+            ));
+        }
+        if let Some(t) = self.toks.iter().find(|t| matches!(t.spec.window, OtWindow::Expiring(_)) && t.spec.target == "verifier") {
+            rep.sample(json!({"stream": "replay-over-time", "kind": t.case.kind, "token": t.token, "made_at_second": self.t_a, "presentations": self.hists.get(&Self::hist_key(t)).unwrap_or(&empty).hist_json()}));
+        }
+    }
+}
+
 fn make_env(seed: u64, const_static_key: bool, notes: &mut Vec<String>) -> Env {
     let mut krng = Rng::new(seed ^ 0xC10);
     let sk: Vec<SigningKey> = (0..N_KEYS)
@@ -1621,11 +2084,15 @@ fn make_env(seed: u64, const_static_key: bool, notes: &mut Vec<String>) -> Env {
             let url = format!("http://{addr}/.well-known/jwks.json").parse().ok()?;
             let store = Arc::new(JwksKeyStore::new(url, Duration::from_secs(3600), tokio_util::sync::CancellationToken::new()));
             let got = tokio::time::timeout(Duration::from_secs(10), store.await_key(JWKS_KID)).await.ok().flatten();
-            got.map(|_| SnapTokenVerifier::new(static_key.clone()).with_jwks_store(store))
+            got.map(|_| store)
         })
     });
+    let store = match &ver_jwks {
+        Ok(Some(s)) => Some(s.clone()),
+        _ => None,
+    };
     let ver_jwks = match ver_jwks {
-        Ok(Some(v)) => Some(v),
+        Ok(Some(store)) => Some(SnapTokenVerifier::new(static_key.clone()).with_jwks_store(store)),
         Ok(None) => {
             notes.push("JWKS store could not be populated from the loop-back endpoint: kid/JWKS cases run against the static-key verifier only".into());
             None
@@ -1636,7 +2103,7 @@ fn make_env(seed: u64, const_static_key: bool, notes: &mut Vec<String>) -> Env {
         }
     };
     let leeway = jsonwebtoken::Validation::new(jsonwebtoken::Algorithm::EdDSA).leeway;
-    Env { sk, vk, rt, ver_static, ver_jwks, leeway }
+    Env { sk, vk, rt, ver_static, ver_jwks, static_dk: static_key, store, leeway }
 }
 
 fn shrink(c: &Case, env: &Env, lean: &mut Lean, fails: &dyn Fn(&Outcome) -> bool) -> Case {
@@ -1701,7 +2168,9 @@ fn main() {
          (static key / static key + JwksKeyStore) and, parsed by the harness' own JWT reader, to the Lean model; \
          systematic single-field mutations of valid v0/v1 tokens + random multi-edits + random strings. \
          Non-trivial = the header segment decodes (the verdict depends on verifier logic beyond decode_header); \
-         distinct by hash of the recipe (times relative)",
+         distinct by hash of the recipe (times relative). Stream replay-over-time: a case = one token (base x window \
+         position relative to the start second) shown repeatedly to one long-lived verifier instance / the running \
+         router while the clock passes its window's end or beginning; counted once per token, distinct by its spec",
     );
     let mut lean = Lean::spawn(&args.driver);
     let mut notes = vec![];
@@ -1727,10 +2196,13 @@ fn main() {
         }
     }
     let n_corpus = cases.len();
+    let mut ot_only: Option<Vec<OtSpec>> = None;
     rep.hit_n("corpus cases", n_corpus as u64);
     if let Some(p) = &args.replay {
         let txt = std::fs::read_to_string(p).expect("replay file");
         cases = txt.lines().filter(|l| !l.trim().is_empty() && !l.starts_with('#')).filter_map(|l| serde_json::from_str::<Case>(l).ok()).collect();
+        // lines of the replay-over-time stream: the token is made again at the current second and presented over time
+        ot_only = Some(txt.lines().filter_map(|l| serde_json::from_str::<OtLine>(l).ok()).map(|l| l.over_time).collect());
     } else {
         let with_jwks = env.ver_jwks.is_some();
         let l = env.leeway as i64;
@@ -1781,7 +2253,37 @@ fn main() {
             }
         }
     }
+    // ---- the real router (started here: the over-time stream presents to it as well) and the over-time stream ----
+    let need_router = match &ot_only {
+        None => true,
+        Some(v) => v.iter().any(|s| s.target == "router"),
+    };
+    let e2e_env: Option<(Env, E2e)> = if need_router {
+        let mut n2 = vec![];
+        let mut env2 = make_env(args.seed, true, &mut n2);
+        env2.leeway = env.leeway;
+        match start_e2e(&env2) {
+            Ok(e) => Some((env2, e)),
+            Err(m) => {
+                rep.notes.push(format!("end-to-end stream not run: {m}"));
+                None
+            }
+        }
+    } else {
+        None
+    };
+    let router: Option<(&Env, &E2e)> = e2e_env.as_ref().map(|(a, b)| (a, b));
+    let mut ot: Option<OverTime> = match &ot_only {
+        Some(v) if v.is_empty() => None,
+        _ => Some(OverTime::new(args.seed, &env, router, args.thorough(), ot_only.clone())),
+    };
+    if let Some(o) = ot.as_mut() {
+        o.round(&env, router, &mut lean, &mut rep);
+    }
     for c in &cases {
+        if let Some(o) = ot.as_mut() {
+            o.tick(&env, router, &mut lean, &mut rep);
+        }
         let o = run_case(c, &env, &mut lean);
         let canon = serde_json::to_string(c).unwrap();
         rep.case(&canon, o.parsed);
@@ -1801,7 +2303,7 @@ fn main() {
         if !o.parsed {
             rep.hit("harness reader: not a JWT");
         }
-        if rep.samples.len() < 6 && o.parsed && (rep.samples.len() % 2 == 0) == o.imp.starts_with("ok") {
+        if rep.samples.len() < 5 && o.parsed && (rep.samples.len() % 2 == 0) == o.imp.starts_with("ok") {
             rep.sample(json!({"kind": c.kind, "token": o.token, "now": o.now, "impl": o.imp, "model": o.model}));
         }
         if let Some(g) = &o.glue {
@@ -1828,13 +2330,10 @@ fn main() {
     }
     // ---- end to end through the real router ---------------------------------------------------------
     if args.replay.is_none() {
-        let mut n2 = vec![];
-        let env2 = make_env(args.seed, true, &mut n2);
-        let mut env2 = env2;
-        env2.leeway = env.leeway;
-        match start_e2e(&env2) {
-            Err(m) => rep.notes.push(format!("end-to-end stream not run: {m}")),
-            Ok(e) => {
+        match &e2e_env {
+            None => {}
+            Some((env2, e)) => {
+                let (env2, e) = (env2, e);
                 let mut r2 = Rng::new(args.seed ^ 0xE2E);
                 let sys = systematic(&mut r2, false, false, env.leeway as i64);
                 let stride = args.scale(4, 1);
@@ -1843,22 +2342,32 @@ fn main() {
                     if i % stride != 0 && !c.kind.contains("valid") && !c.kind.contains("window") && !c.kind.contains("probe") {
                         continue;
                     }
-                    run_e2e(c, Some(0), &env2, &e, &mut lean, &mut rep);
+                    if let Some(o) = ot.as_mut() {
+                        o.tick(&env, router, &mut lean, &mut rep);
+                    }
+                    run_e2e(c, Some(0), env2, e, &mut lean, &mut rep);
                     n += 1;
                 }
                 // header spellings around valid and invalid tokens
                 let picks: Vec<&Case> = sys.iter().filter(|c| c.kind.ends_with("/valid") || c.kind.contains("probe nbf") || c.kind.ends_with("alg=EdDSA/other-key")).collect();
                 for c in &picks {
-                    run_e2e(c, None, &env2, &e, &mut lean, &mut rep);
+                    if let Some(o) = ot.as_mut() {
+                        o.tick(&env, router, &mut lean, &mut rep);
+                    }
+                    run_e2e(c, None, env2, e, &mut lean, &mut rep);
                     n += 1;
                     for i in 1..AUTH_SHAPES.len() {
-                        run_e2e(c, Some(i), &env2, &e, &mut lean, &mut rep);
+                        run_e2e(c, Some(i), env2, e, &mut lean, &mut rep);
                         n += 1;
                     }
                 }
                 rep.hit_n("e2e cases (real router: AuthMiddleware + register handler)", n);
             }
         }
+    }
+    if let Some(o) = ot.as_mut() {
+        o.finish(&env, router, &mut lean, &mut rep);
+        o.summary(&mut rep);
     }
     rep.write(&args.out);
     std::process::exit(if rep.ok() { 0 } else { 1 });
